@@ -66,7 +66,7 @@ def step(cx, S, body):
                 if c.kind == "call" and c.term is ci[0]:
                     te, fe = bool_edges(b.term, c)
                     cerr = [t.bb for t in body.calls("=reply_client_id_error")]
-                    okc = all(cfg.edge_dominates(te, x) for x in succ) and bool(cerr) and all(x in cfg.reach(fe[2]) for x in cerr) and not any(x in cfg.reach(fe[2]) for x in succ)
+                    okc = all(cfg.edge_dominates(te, x) for x in succ) and bool(cerr) and all(x in cfg.after(fe) for x in cerr) and not any(x in cfg.after(fe) for x in succ)
             lits = [const_strings(body, sl, a) for a in ci[0].args[2:4]]
         cx.check(okc, "C19.R1", "cert:%s:client-id-check-dominates" % S, site, "%s is reachable without check_client_id()==true (or the false edge does not answer ClientIdError)" % what, note_ok="check_client_id()==true dominates %s" % what)
         nxt = STEPS[STEPS.index(S) + 1] if S != "End" else "End"
@@ -81,7 +81,7 @@ def step(cx, S, body):
         c = switch_cond(body, du, b.term)
         if c.kind in ("multi", "call", "const"):
             te, fe = bool_edges(b.term, c)
-            if cerr and all(x in cfg.reach(fe[2]) for x in cerr) and all(cfg.edge_dominates(te, x) for x in succ) and not any(x in cfg.reach(fe[2]) for x in succ):
+            if cerr and all(x in cfg.after(fe) for x in cerr) and all(cfg.edge_dominates(te, x) for x in succ) and not any(x in cfg.after(fe) for x in succ):
                 chk = (b.term, c, te, fe)
     if chk is None:
         cx.bad("C19.R1", "cert:%s:check-dominates" % S, site, "%s is not dominated by the comparison with the canonical request (no `check` switch whose false edge answers CertificationError)" % what); return
@@ -143,7 +143,7 @@ def step(cx, S, body):
             # call mode
             fe_ = flag_true_edges(body, cfg, du)
             dom = {f: any(cfg.edge_dominates(e, E.bb) for e in es) for f, es in fe_.items()}
-            reach = {f: any(E.bb in cfg.reach(e[2]) for e in es) for f, es in fe_.items()}
+            reach = {f: any(E.bb in cfg.after(e) for e in es) for f, es in fe_.items()}
             wantm = MODE.get(S)
             okmode = all((dom[f] if f == wantm else not reach[f]) for f in ("more", "oneway", "upgrade")) and all(fe_[f] for f in fe_)
             cx.check(okmode, "C19.R2", "cert:%s:call-mode" % S, site,
